@@ -113,7 +113,7 @@ def same(a, b) -> bool:
     return a == b
 
 
-FLOAT_POOL = (0.0, 1.5, -2.25, 1e300, float("nan"), float("inf"), float("-inf"), 3.0)
+FLOAT_POOL = (0.0, 1.5, -2.25, 1e300, float("nan"), float("inf"), float("-inf"), 3.0, 1e18, -1e18)
 
 
 def pick(c, k: int) -> int:
